@@ -28,18 +28,26 @@ W = "http://schemas.xmlsoap.org/wsdl/"
 SOAP = "http://schemas.xmlsoap.org/wsdl/soap/"
 XSD = "http://www.w3.org/2001/XMLSchema"
 
+MONEY = '<xsd:complexType name="Money"><xsd:sequence><xsd:element name="amount" type="xsd:decimal"/><xsd:element name="cur" type="xsd:string" minOccurs="0"/></xsd:sequence></xsd:complexType>'
 SCHEMA_T_DECLS = [
     '<xsd:complexType name="Order"><xsd:sequence><xsd:element name="id" type="xsd:int"/><xsd:element name="line" type="tns:Line" maxOccurs="unbounded"/><xsd:element ref="tns:note" minOccurs="0"/></xsd:sequence></xsd:complexType>',
-    '<xsd:complexType name="Line"><xsd:sequence><xsd:element name="sku" type="tns:Sku"/><xsd:element name="qty" type="xsd:int"/></xsd:sequence><xsd:attribute name="pos" type="xsd:int"/></xsd:complexType>',
+    '<xsd:complexType name="Line"><xsd:sequence><xsd:element name="sku" type="tns:Sku"/><xsd:element name="qty" type="xsd:int"/><xsd:group ref="tns:Audit"/></xsd:sequence><xsd:attribute name="pos" type="xsd:int"/><xsd:attributeGroup ref="tns:Meta"/><xsd:attribute ref="tns:lang"/></xsd:complexType>',
     '<xsd:simpleType name="Sku"><xsd:restriction base="xsd:string"><xsd:maxLength value="8"/></xsd:restriction></xsd:simpleType>',
     '<xsd:element name="note" type="xsd:string"/>',
     '<xsd:element name="placeOrder" type="tns:Order"/>',
-    '<xsd:element name="placeOrderResponse"><xsd:complexType><xsd:sequence><xsd:element name="ok" type="xsd:boolean"/><xsd:element name="ref" type="u:Ref"/></xsd:sequence></xsd:complexType></xsd:element>',
+    '<xsd:element name="placeOrderResponse"><xsd:complexType><xsd:sequence><xsd:element name="ok" type="xsd:boolean"/><xsd:element name="ref" type="u:Ref"/><xsd:element name="total" type="tns:Money"/></xsd:sequence></xsd:complexType></xsd:element>',
     '<xsd:element name="ping" type="xsd:string"/>',
+    # declarations that are neither types nor elements: referenced by `ref=` from Line
+    '<xsd:group name="Audit"><xsd:sequence><xsd:element name="by" type="xsd:string" minOccurs="0"/></xsd:sequence></xsd:group>',
+    '<xsd:attributeGroup name="Meta"><xsd:attribute name="rev" type="xsd:int"/></xsd:attributeGroup>',
+    '<xsd:attribute name="lang" type="xsd:string"/>',
+    MONEY,
 ]
+N_NONTYPE = 3          # the three declarations before MONEY
 SCHEMA_U_DECLS = [
-    '<xsd:complexType name="Ref"><xsd:sequence><xsd:element name="code" type="xsd:string"/><xsd:element name="when" type="u:Stamp"/></xsd:sequence></xsd:complexType>',
+    '<xsd:complexType name="Ref"><xsd:sequence><xsd:element name="code" type="xsd:string"/><xsd:element name="when" type="u:Stamp"/><xsd:element name="fee" type="u:Money" minOccurs="0"/></xsd:sequence></xsd:complexType>',
     '<xsd:simpleType name="Stamp"><xsd:restriction base="xsd:dateTime"/></xsd:simpleType>',
+    MONEY,
 ]
 MESSAGES = [
     '<message name="placeOrderIn"><part name="body" element="tns:placeOrder"/></message>',
@@ -117,6 +125,24 @@ def split(kind, base="http://h.example/w/"):
         files["t3.xsd"] = schema("urn:t", SCHEMA_T_DECLS[3:5], '<xsd:include schemaLocation="%s"/>' % loc("t2.xsd", style))
         types = schema("urn:t", SCHEMA_T_DECLS[5:], '<xsd:import namespace="urn:u"/><xsd:include schemaLocation="%s"/>' % loc("t2.xsd", style)) + schema("urn:u", SCHEMA_U_DECLS)
         top = ["<types>%s</types>" % types] + MESSAGES + [PORTTYPE] + BINDINGS + [SERVICE]
+    elif k in ("xsd-nontype-doc-inline", "xsd-nontype-doc-include"):
+        # one document of namespace T holds only the group / attributeGroup / global attribute declarations
+        nontype = SCHEMA_T_DECLS[-1 - N_NONTYPE:-1]
+        rest = SCHEMA_T_DECLS[:-1 - N_NONTYPE] + SCHEMA_T_DECLS[-1:]
+        if k.endswith("inline"):
+            types = schema("urn:t", nontype) + schema("urn:t", rest, '<xsd:import namespace="urn:u"/>') + schema("urn:u", SCHEMA_U_DECLS)
+        else:
+            files["tg.xsd"] = schema("urn:t", nontype)
+            types = schema("urn:t", rest, '<xsd:import namespace="urn:u"/><xsd:include schemaLocation="%s"/>' % loc("tg.xsd", style)) + schema("urn:u", SCHEMA_U_DECLS)
+        top = ["<types>%s</types>" % types] + MESSAGES + [PORTTYPE] + BINDINGS + [SERVICE]
+    elif k in ("xsd-chameleon-include", "xsd-chameleon-include-first"):
+        # Money lives in a document without targetNamespace (and without a default xmlns) that both namespaces include
+        files["common.xsd"] = '<xsd:schema xmlns:xsd="%s">%s</xsd:schema>' % (XSD, MONEY)
+        inc = '<xsd:include schemaLocation="%s"/>' % loc("common.xsd", style)
+        imp = '<xsd:import namespace="urn:u" schemaLocation="%s"/>' % loc("u.xsd", style)
+        files["u.xsd"] = schema("urn:u", SCHEMA_U_DECLS[:-1], inc)
+        types = schema("urn:t", SCHEMA_T_DECLS[:-1], (inc + imp) if k.endswith("first") else (imp + inc))
+        top = ["<types>%s</types>" % types] + MESSAGES + [PORTTYPE] + BINDINGS + [SERVICE]
     elif k == "xsd-import-cycle":
         files["u.xsd"] = schema("urn:u", SCHEMA_U_DECLS, '<xsd:import namespace="urn:t" schemaLocation="%s"/>' % loc("t.xsd", style))
         files["t.xsd"] = schema("urn:t", SCHEMA_T_DECLS, '<xsd:import namespace="urn:u" schemaLocation="%s"/>' % loc("u.xsd", style))
@@ -169,7 +195,7 @@ def split(kind, base="http://h.example/w/"):
     return files
 
 
-SPLITS = ["xsd-import-u", "xsd-include-t", "xsd-subdir", "wsdl-subdir", "xsd-include-cycle", "xsd-import-cycle", "wsdl-import-abstract", "wsdl-chain", "wsdl-chain-3",
+SPLITS = ["xsd-nontype-doc-inline", "xsd-nontype-doc-include", "xsd-chameleon-include", "xsd-chameleon-include-first", "xsd-import-u", "xsd-include-t", "xsd-subdir", "wsdl-subdir", "xsd-include-cycle", "xsd-import-cycle", "wsdl-import-abstract", "wsdl-chain", "wsdl-chain-3",
           "wsdl-two-imports-same-ns", "wsdl-two-hops", "wsdl-cycle-aba", "wsdl-cycle-abca", "wsdl-cycle-against", "wsdl-types-split"]
 
 
@@ -365,8 +391,12 @@ def run(ctx):
     for p in perms:
         variants.append(("top-order", dict(order=p), monolith(order=p)))
     # (b) declarations inside the schema (forward references)
-    sp = [list(p) for p in itertools.permutations(range(len(SCHEMA_T_DECLS)))]
-    for p in ([sp[i] for i in sorted(rng.sample(range(len(sp)), ctx.n(40, 600)))] + [list(reversed(range(len(SCHEMA_T_DECLS))))]):
+    sp = []
+    for _ in range(ctx.n(40, 600)):
+        q = list(range(len(SCHEMA_T_DECLS)))
+        rng.shuffle(q)
+        sp.append(q)
+    for p in (sp + [list(reversed(range(len(SCHEMA_T_DECLS))))]):
         variants.append(("schema-order", dict(sorder=p), monolith(sorder=p)))
     # (c) schemas inside wsdl:types
     variants.append(("types-order", dict(torder=[1, 0]), monolith(torder=[1, 0])))
@@ -436,9 +466,9 @@ def run(ctx):
     res.rule = ("one generated WSDL (two schemas with forward and cross-namespace references, 3 messages, a portType with 2 operations, 2 "
                 "bindings, a service with 2 ports) in: permutations of the top-level definitions (all 120 orders of the first five in the "
                 "thorough tier, sampled otherwise, plus random full permutations), permutations of the schema's declarations, swapped "
-                "schemas in wsdl:types, and 15 file cuts x relative / absolute / dotted (non-canonical) locations, five of them also as files on disk (xsd:import, xsd:include, documents in sub-directories referring relatively, two hops in one namespace, include cycle, import "
+                "schemas in wsdl:types, and 19 file cuts x relative / absolute / dotted (non-canonical) locations, five of them also as files on disk (xsd:import, xsd:include, documents in sub-directories referring relatively, two hops in one namespace, include cycle, import "
                 "cycle, wsdl:import, chains of 2 and 3, two imports of one namespace, A->B->A, A->B->C->A, a cycle referenced against its "
-                "direction). distinct = distinct variant")
+                "direction, a namespace document holding only group / attributeGroup / attribute declarations - inline and included -, a chameleon document included from two namespaces in both sibling orders). distinct = distinct variant")
     return res
 
 
